@@ -62,5 +62,5 @@ cases! {
     split_1_1_1 = split_case::<3, 1, 1, 1>(); split_1_1_2 = split_case::<4, 1, 1, 2>(); split_2_1_1 = split_case::<4, 2, 1, 1>();
     split_2_1_2 = split_case::<5, 2, 1, 2>(); split_1_1_5 = split_case::<7, 1, 1, 5>(); split_2_1_3 = split_case::<6, 2, 1, 3>();
     split_3_1_3 = split_case::<7, 3, 1, 3>(); split_2_2_2 = split_case::<6, 2, 2, 2>(); split_4_1_4 = split_case::<9, 4, 1, 4>();
-    split_1_1_8 = split_case::<10, 1, 1, 8>(); split_5_1_5 = split_case::<11, 5, 1, 5>();
+    split_1_1_8 = split_case::<10, 1, 1, 8>(); split_1_2_1 = split_case::<4, 1, 2, 1>(); split_1_3_2 = split_case::<6, 1, 3, 2>(); split_5_1_5 = split_case::<11, 5, 1, 5>();
 }
